@@ -113,6 +113,28 @@ pub fn run(run: &mut Run) {
             Outcome::Ok(b) => b,
             _ => {
                 acc.count("base-rejected", 1);
+                // a form that differs only in layout / redundant parentheses must then be rejected as well
+                for (desc, opts) in [
+                    ("paren_values", PrintOpts { paren_values: true, ..PrintOpts::default() }),
+                    ("full_parens", PrintOpts { full_parens: true, ..PrintOpts::default() }),
+                    ("break_brackets", PrintOpts { break_brackets: true, ..PrintOpts::default() }),
+                    ("noise", PrintOpts { layout: 2, ..PrintOpts::default() }),
+                ] {
+                    let text = print_with(&base, opts).text;
+                    acc.evaluations += 1;
+                    if compile_src(&text).is_ok() {
+                        acc.outcome("layout-variant-accepted-but-canonical-rejected");
+                        let mut files = serde_json::Map::new();
+                        files.insert(MAIN.to_string(), json!(text));
+                        acc.fail(Failure {
+                            sig: "layout-variant-rejected".into(),
+                            preds: vec![format!("variant:{}", desc)],
+                            detail: format!("family {}: the canonical text is rejected but the variant [{}] is accepted\ncanonical text:\n{}\nvariant:\n{}", fam, desc, canon_text, text),
+                            case: json!({"engine": "c14", "files": files, "canonical": canon_text, "sugar": false}),
+                            size: text.len(),
+                        });
+                    }
+                }
                 return;
             }
         };
@@ -162,7 +184,7 @@ pub fn run(run: &mut Run) {
                         if layout == 0 && !full_parens && !crlf && !brk {
                             continue;
                         }
-                        let opts = PrintOpts { full_parens, explicit_ret: false, loop_true: false, layout: layout * 7 + bi as u32 % 5 * (layout.min(1)), crlf, break_brackets: brk, break_infix: false };
+                        let opts = PrintOpts { full_parens, explicit_ret: false, loop_true: false, layout: layout * 7 + bi as u32 % 5 * (layout.min(1)), crlf, break_brackets: brk, break_infix: false, paren_values: false };
                         let text = print_with(&base, opts).text;
                         judge(acc, "layout", format!("layout={} parens={} crlf={} break_brackets={}", layout, full_parens, crlf, brk), text, false);
                     }
@@ -173,6 +195,13 @@ pub fn run(run: &mut Run) {
             let opts = PrintOpts { break_infix: true, ..PrintOpts::default() };
             let text = print_with(&base, opts).text;
             judge(acc, "layout", "break_infix".to_string(), text, false);
+            // redundant parentheses around whole values (definitions, assignments, ret)
+            let opts = PrintOpts { paren_values: true, ..PrintOpts::default() };
+            let text = print_with(&base, opts).text;
+            judge(acc, "layout", "paren_values".to_string(), text, false);
+            let opts = PrintOpts { paren_values: true, full_parens: true, break_infix: true, layout: 1, ..PrintOpts::default() };
+            let text = print_with(&base, opts).text;
+            judge(acc, "layout", "paren_values full_parens break_infix noise".to_string(), text, false);
             let opts = PrintOpts { break_infix: true, break_brackets: true, layout: 2, ..PrintOpts::default() };
             let text = print_with(&base, opts).text;
             judge(acc, "layout", "break_infix break_brackets noise".to_string(), text, false);
@@ -224,7 +253,7 @@ pub fn run(run: &mut Run) {
         }
     });
     run.stats = Stats::merge_all(accs);
-    run.rule = "base programs: the statement families (short sequences), the recursion templates, expressions of size <= 1 in five call-heavy contexts and a feature-dense sample; per base every combination of 4 layout noise patterns (blank lines, comment lines, trailing comments, tab indentation) x redundant parentheses x CRLF x line breaks inside brackets (after `(`, `[`, `,`; and continuation lines that start with a binary operator or `->`), and every call-style vector over the first k call sites (f(a), f' a, a -> f(), a -> f') x trailing expression vs ret x loop do vs loop true do; non-trivial = the base compiles; distinct by base text".into();
+    run.rule = "base programs: the statement families (short sequences), the recursion templates, expressions of size <= 1 in five call-heavy contexts and a feature-dense sample; per base every combination of 4 layout noise patterns (blank lines, comment lines, trailing comments, tab indentation) x redundant parentheses x CRLF x line breaks inside brackets (after `(`, `[`, `,`; and continuation lines that start with a binary operator or `->`) x redundant parentheses around whole values, and every call-style vector over the first k call sites (f(a), f' a, a -> f(), a -> f') x trailing expression vs ret x loop do vs loop true do; non-trivial = the base compiles; distinct by base text".into();
     run.bounds = json!({"bases": bases.len(), "call_sites_varied": ksites});
     run.assumptions = vec![
         "layout variants are compared byte for byte after masking the line number in `Reached unreachable code on line N`".into(),
